@@ -126,6 +126,7 @@ func (x *Exec) pass() {
 	x.paramVals = map[string]Val{}
 	x.deferred = nil
 	x.inCrit = false
+	x.backEdgeCount = map[*ssa.BasicBlock]int{}
 	x.psums = nil
 	x.psumUnfolded = nil
 	x.X.decls = nil
@@ -385,14 +386,21 @@ func (x *Exec) loopBack(li *loopInfo, st *State, cond Term, variants map[*ssa.Ba
 	}
 	bs := st.clone()
 	bs.live = cond
+	// several back edges (e.g. `continue` and the end of the body): one obligation per edge,
+	// told apart by the ordinal of the edge; a loop with one back edge keeps the plain name
+	x.backEdgeCount[li.head]++
+	edge := ""
+	if n := x.backEdgeCount[li.head]; n > 1 {
+		edge = fmt.Sprintf("@edge%d", n)
+	}
 	for _, a := range x.rangeIndexCells(li) {
 		if t, ok := bs.cells[a]; ok {
-			x.oblige(bs, "loop-preserve", fmt.Sprintf("loop%d-preserve:rangeindex", li.ordinal), x.rangeIndexInv(li, a, t), li.head.Instrs[0].Pos(), false, x.props())
+			x.oblige(bs, "loop-preserve", fmt.Sprintf("loop%d-preserve:rangeindex%s", li.ordinal, edge), x.rangeIndexInv(li, a, t), li.head.Instrs[0].Pos(), false, x.props())
 		}
 	}
 	for k, c := range x.fc.LoopInv[li.ordinal] {
 		t := x.evalClause(c, x.fn, bs, x.entry, nil, false)
-		o := x.oblige(bs, "loop-preserve", fmt.Sprintf("loop%d-preserve:%d", li.ordinal, k+1), t, li.head.Instrs[0].Pos(), false, x.props())
+		o := x.oblige(bs, "loop-preserve", fmt.Sprintf("loop%d-preserve:%d%s", li.ordinal, k+1, edge), t, li.head.Instrs[0].Pos(), false, x.props())
 		o.Clause, o.Line = c.Text, c.Line
 	}
 	if dec := x.fc.LoopDec[li.ordinal]; dec != nil {
@@ -402,7 +410,7 @@ func (x *Exec) loopBack(li *loopInfo, st *State, cond Term, variants map[*ssa.Ba
 		if x.X.bvMode {
 			goal = and(sx("bvsge", v0, "(_ bv0 64)"), sx("bvslt", v, v0))
 		}
-		o := x.oblige(bs, "loop-variant", fmt.Sprintf("loop%d-variant", li.ordinal), goal, li.head.Instrs[0].Pos(), false, x.props())
+		o := x.oblige(bs, "loop-variant", fmt.Sprintf("loop%d-variant%s", li.ordinal, edge), goal, li.head.Instrs[0].Pos(), false, x.props())
 		o.Clause, o.Line = dec.Text, dec.Line
 	}
 }
@@ -450,10 +458,14 @@ func (x *Exec) evalClauseDual(c *Clause, target *ssa.Function, cur, old *State, 
 			args = append(args, d)
 			continue
 		}
-		if name == "rangeindex" && c.Loop > 0 && target == x.fn {
+		if m := rangeIndexNameRe.FindStringSubmatch(name); m != nil && target == x.fn {
 			bound := false
+			want := c.Loop
+			if m[1] != "" {
+				fmt.Sscanf(m[1], "%d", &want)
+			}
 			for _, li := range x.loops {
-				if li.ordinal != c.Loop {
+				if li.ordinal != want {
 					continue
 				}
 				for _, a := range x.rangeIndexCells(li) {
